@@ -1354,6 +1354,32 @@ fn mpq_interop(seed: u64) -> String {
             if &body != data { return fail("mpq_interop", format!("independent extraction of {} ({} bytes, encrypted={}, fix_key={}) with the published key formula (hash(name,0x300) + pos) ^ size", name, data.len(), enc, fix), "different bytes".into(), "the added bytes".into()); }
         }
     }
+    // V3 / V4 extended header (published layout): 64-bit archive size +0x2C, BET position +0x34, HET position +0x3C.  An independent
+    // reader finds the extended tables only if each position word points at the table with that signature.
+    for (vi, ver) in [wow_mpq::FormatVersion::V3, wow_mpq::FormatVersion::V4].into_iter().enumerate() {
+        let dir = tempfile::tempdir().unwrap();
+        let path = dir.path().join("x.mpq");
+        let b = ArchiveBuilder::new().version(ver).listfile_option(ListfileOption::None)
+            .add_file_data(rng.bytes(100 + 4 * vi), "one.dat").add_file_data(rng.bytes(300), "dir\\two.dat");
+        if let Err(e) = b.build(&path) { return fail("mpq_interop", format!("{:?} archive, 2 files", ver), format!("build Err({})", e), "Ok".into()); }
+        let check = |what: &str| -> Option<String> {
+            let raw = std::fs::read(&path).unwrap();
+            let rd64 = |o: usize| u64::from(rd32(&raw, o)) | (u64::from(rd32(&raw, o + 4)) << 32);
+            let hsize = rd32(&raw, 4) as usize;
+            let want = if vi == 0 { 68 } else { 208 };
+            if hsize != want || u16::from_le_bytes([raw[12], raw[13]]) as usize != 2 + vi { return Some(fail("mpq_interop", format!("{:?} header ({})", ver, what), format!("header size {} format {}", hsize, raw[12]), format!("{} / {}", want, 2 + vi))); }
+            let (bet, het) = (rd64(0x34) as usize, rd64(0x3C) as usize);
+            let sig = |o: usize| -> String { if o != 0 && o + 4 <= raw.len() { format!("{:02x?}", &raw[o..o + 4]) } else { format!("offset {} of {}", o, raw.len()) } };
+            if bet == 0 && het == 0 { return None; }
+            if sig(bet) != format!("{:02x?}", b"BET\x1a") || sig(het) != format!("{:02x?}", b"HET\x1a") {
+                return Some(fail("mpq_interop", format!("{:?} archive ({}), 2 files: header words +0x34 (BET position) = {:#x}, +0x3C (HET position) = {:#x}", ver, what, bet, het),
+                    format!("bytes at the BET position: {}, at the HET position: {}", sig(bet), sig(het)), "'BET\\x1A' at the position stored at +0x34 and 'HET\\x1A' at the position stored at +0x3C".into()));
+            }
+            None
+        };
+        tried += 1;
+        if let Some(f) = check("as built") { return f; }
+    }
     none("mpq_interop", tried)
 }
 
